@@ -115,7 +115,7 @@ def run_job(job, rep):
         rep.ob(st, f"redecode-differs:{name}", mcase(mm), "decode(encode(decode(raw))) != decode(raw)")
         rep.sample(dict(L=L, service=name, witness=case["raw"], reserved_mask={str(k): hex(v) for k, v in mask.items()}), limit=2)
 
-    _, st = core.explore(run, on_path=judge, timeout=2400)
+    _, st = core.explore(run, on_path=judge, stop=rep.enough, timeout=2400)
     rep.add_stats(st)
 
 
